@@ -11,13 +11,16 @@
   valid matchings.  What remains outside the theorems (PARTIAL): (1) the HitEnum walk on the
   known-finding candidates (KF-a / KF-b, see C01) that are not valid matchings — the walk is total
   on those too after F1, but this is exercised by the harness rather than proved; (2) exceptions
-  inside numpy / scipy / pandas on degenerate arrays (the seed stage is a parameter of the model),
-  which the degenerate end-to-end stream exercises against the real program.
+  inside numpy / scipy / pandas on degenerate arrays in the PRIMARY seeding stage (a parameter of the
+  model), which the degenerate end-to-end stream exercises against the real program.  The SECONDARY
+  stage is in the model: `C07_refine_total` says exactly when it raises (never, for a primary peak
+  not beyond the last reference label by more than the margin).
 -/
 import Props.Defs
 import Props.C18
 import Proofs.SrcBlind
 import Proofs.Compose
+import Proofs.Peaks
 import Proofs.SecondPass
 import Proofs.Total
 namespace Coma.Props
@@ -128,5 +131,23 @@ theorem C07_trim_total (e : Pr) (xs : List APos) : ∃ ys, trimEnd e xs = .ok ys
 
 /-- non-vacuity of the parameter hypothesis: the defaults -/
 example : GoodParams defaultParams := ⟨by decide, by decide, by decide, by decide⟩
+
+/-- the refinement of a primary peak (secondary correlation, `find_peaks`, top ten) raises exactly when no
+    reference label lies at or after the start of the refinement window — scipy's `correlate` then gets
+    an empty array — and in no other case, whatever the molecule, strand, peak and (valid) parameters -/
+theorem C07_refine_total (c : SecCfg) (ref q : OMap) (rev : Bool) (peak : Int) (hres : 1 ≤ c.res) (hb : 0 ≤ c.blur)
+    (hqs : Ascending q.positions) (hrs : Ascending ref.positions)
+    (hq : ∃ p ∈ q.positions, 0 ≤ p) (hr : ref.positions ≠ []) :
+    (∃ pk, refine c ref q rev peak = .ok pk) ↔ ∃ p ∈ ref.positions, peak - c.margin ≤ p :=
+  Coma.Proofs.refine_ok_iff c ref q rev peak hres hb hqs hrs hq hr
+
+/-- and the only exception it can raise is that IndexError -/
+theorem C07_refine_error_kind (c : SecCfg) (ref q : OMap) (rev : Bool) (peak : Int) (e : Err) (hres : 1 ≤ c.res) (hb : 0 ≤ c.blur)
+    (hq : q.positions ≠ []) (hr : ref.positions ≠ []) (h : refine c ref q rev peak = .error e) : e = .indexError :=
+  Coma.Proofs.refine_error_kind c ref q rev peak e hres hb hq hr h
+
+/-- non-vacuity / the error branch: a window that starts after the last reference label -/
+example : refine {} { id := 1, length := 50000, positions := [1000, 9000] } { id := 2, length := 701, positions := [0, 700] } false 30000
+    = .error .indexError := by decide +kernel
 
 end Coma.Props
